@@ -71,6 +71,8 @@ func TestC02(t *testing.T) {
 		// final snapshot: content and counts equal the reference set
 		w.NewSnapshot()
 		w.CheckSnap(len(w.snaps)-1, 0, "snapshot-content")
+		w.settle()
+		w.WalkStore("final-")
 		rep := w.Shutdown()
 		if cfg.MM && !rep.Clean() {
 			w.Failf("alloc-report", "allocator report after Close: %v", rep)
